@@ -39,6 +39,8 @@ def gen_action(R, prof, nn, me):
         others = [i for i in range(nn) if i != me]
         return ("send", msg, _pick(R, others) if others else me)
     if k == "bcast":
+        if R.random() < prof.get("p_bcastdst", 0.1):
+            return ("bcastdst", R.randrange(20), R.choice([me, me, R.randrange(nn), nn + 2]))
         return ("bcast", R.randrange(20))
     if k == "goto":
         p = gen_pos(R, prof.get("spread", 10))
@@ -58,7 +60,7 @@ def gen_action(R, prof, nn, me):
     raise ValueError(k)
 
 
-GENERATING = ("settimer", "send", "bcast")
+GENERATING = ("settimer", "send", "bcast", "bcastdst")
 
 
 def gen_rule(R, prof, nn, me, bounded):
